@@ -79,7 +79,37 @@ class RateLimitS2(Segment):
         return [Clause('C13.emits_the_element_it_received_once', ['C13', 'C02'], when='yield:2',
                        text='emitted == [x] and self.next == old(self.next)'),
                 Clause('C10.metadata_unchanged', ['C10'], when='yield:2', text='emitted_md == [metadata]'),
+                Clause('C13.a_failed_consumer_does_not_give_the_slot_back', ['C13', 'C16'], when='raise', text='self.next == old(self.next)',
+                       note='slots already reserved by the elements sleeping behind this one were computed from self.next: moving it '
+                            'back puts the next arrival on a slot that is taken'),
+                Clause('C16.a_failed_consumer_keeps_the_hold', ['C16', 'C04'], when='raise', text='delta == 0',
+                       note='no release on the failure path: the completion callback of a failed element is never triggered'),
                 Clause('C13.no_other_outcome', ['C13'], when='return', text='False')] + self.segment_clauses()
+
+
+class RateLimitS3Failed(RateLimitS2):
+    """the awaited emission failed (an asynchronous consumer raised): the slot bookkeeping stays, the hold stays"""
+    start = 2
+    name = 'rate_limit.update@2[downstream failed]'
+    props = ['C13', 'C16', 'C04']
+    inflight_pre = 'occ(metadata)'
+    inflight_post = {}
+
+    def resume(self, I, loc):
+        from pyvc.interp import Resume
+        from pyvc.sym import VExc
+        return Resume(exc=VExc('DownstreamError'))
+
+    def clauses(self):
+        return [Clause('C13.a_failed_consumer_does_not_give_the_slot_back', ['C13', 'C16'], when='any', text='self.next == old(self.next)',
+                       note='slots already reserved by the elements sleeping behind this one were computed from self.next: moving it '
+                            'back puts the next arrival on a slot that is taken'),
+                Clause('C16.a_failed_consumer_keeps_the_hold', ['C16', 'C04'], when='any', text='delta == 0 and emitted == []',
+                       note='no release on the failure path: the completion callback of a failed element is never triggered'),
+                Clause('C16.the_failure_propagates', ['C16'], when='normal', text='False')]
+
+    def cover(self, outcomes):
+        return [('the failure propagates', any(o.kind == 'raise' for o in outcomes))]
 
 
 class RateLimitS3(RateLimitS2):
@@ -94,7 +124,7 @@ class RateLimitS3(RateLimitS2):
                        text='delta == -occ(metadata) and emitted == [] and self.next == old(self.next)')] + self.segment_clauses()
 
 
-ALL = [RateLimitS1, RateLimitS2, RateLimitS3]
+ALL = [RateLimitS1, RateLimitS2, RateLimitS3, RateLimitS3Failed]
 
 
 # --------------------------------------------------------------------------- buffer / delay (queue nodes)
